@@ -248,7 +248,9 @@ func C04(p *core.Program, r *core.Report) {
 	var innerFinder *ssa.Function
 	if itf := mustFunc(p, r, "V5", domutilPkg+".InnerText"); itf != nil {
 		for _, f := range recursiveWorkers(p, itf) {
-			if len(core.Calls(p.Inlined(f), func(ci ssa.CallInstruction) bool { return core.IsCallTo(ci, "(*bytes.Buffer).WriteString", "(*strings.Builder).WriteString") })) > 0 {
+			if len(core.Calls(p.Inlined(f), func(ci ssa.CallInstruction) bool {
+				return core.IsCallTo(ci, "(*bytes.Buffer).WriteString", "(*strings.Builder).WriteString")
+			})) > 0 {
 				innerFinder = f
 			}
 		}
